@@ -860,34 +860,67 @@ func (r *run) checkRetained(m *Model) {
 		if !accepted(c) {
 			continue
 		}
-		// walk the down stream: a SUBACK opens a block, the next response closes it
-		respOf := map[*WirePkt]*Req{}
-		for _, rq := range m.Reqs[c] {
-			if rq.Resp != nil {
-				respOf[rq.Resp] = rq
-			}
+		// A retained copy belongs to a SUBSCRIBE of this connection if it is
+		// sent after the SUBSCRIBE arrived and before the broker answers the
+		// request that follows it (the broker may send retained messages before
+		// or after the SUBACK).
+		type block struct {
+			sr               *subReq
+			open, ack, close int64
 		}
-		var cur *subReq
+		var blocks []*block
+		var respStamps []int64
 		for _, w := range c.Down {
 			if isResp(w.P.Type) {
-				cur = nil
-				if rq := respOf[w]; rq != nil && w.P.Type == refmqtt.SUBACK && len(w.P.QoSs) == len(rq.W.P.Filters) {
-					cur = &subReq{c: c, who: fmt.Sprintf("connection %d", c.Idx), lo: rq.W.First, hi: w.Last, filters: rq.W.P.Filters, codes: w.P.QoSs}
-					reqs = append(reqs, cur)
-				}
+				respStamps = append(respStamps, w.Last)
+			}
+		}
+		for _, rq := range m.Reqs[c] {
+			if rq.W.P.Type != refmqtt.SUBSCRIBE || rq.Resp == nil || len(rq.Resp.P.QoSs) != len(rq.W.P.Filters) {
 				continue
 			}
+			b := &block{open: rq.W.First, ack: rq.Resp.Last, close: inf}
+			for _, st := range respStamps {
+				if st > rq.Resp.Last {
+					b.close = st
+					break
+				}
+			}
+			b.sr = &subReq{c: c, who: fmt.Sprintf("connection %d", c.Idx), lo: rq.W.First, hi: rq.Resp.Last, filters: rq.W.P.Filters, codes: rq.Resp.P.QoSs}
+			blocks = append(blocks, b)
+			reqs = append(reqs, b.sr)
+		}
+		for _, w := range c.Down {
 			if w.P.Type != refmqtt.PUBLISH || !w.P.Retain {
 				continue
 			}
 			d := delivOf[w]
-			if cur != nil && w.Last > cur.hi {
-				// the value may be read from the store any time until it is sent
-				cur.hi = w.Last
+			var cur *subReq
+			// the SUBSCRIBE whose SUBACK was the last one before this copy and
+			// whose successor has not been answered yet ...
+			for _, b := range blocks {
+				if b.ack <= w.First && w.Last <= b.close {
+					cur = b.sr
+				}
+			}
+			// ... or, for a broker that sends retained messages ahead of the
+			// SUBACK, the SUBSCRIBE that has arrived but is not answered yet
+			if cur == nil {
+				for _, b := range blocks {
+					if b.open < w.First && w.Last <= b.ack {
+						cur = b.sr
+						break
+					}
+				}
 			}
 			if cur == nil {
-				r.viol("C08", "retain-flag-on-forward", "C08/retain-flag-outside-subscribe", "connection %d received PUBLISH %s with the retain flag set although it does not follow a SUBACK of that connection (messages forwarded to existing subscriptions must carry retain flag 0)", c.Idx, w.P)
+				r.cur = c
+				r.viol("C08", "retain-flag-on-forward", "C08/retain-flag-outside-subscribe", "connection %d received PUBLISH %s with the retain flag set although no SUBSCRIBE of that connection was being served (messages forwarded to existing subscriptions must carry retain flag 0)", c.Idx, w.P)
 				continue
+			}
+			if w.Last > cur.hi {
+				// the value may be read from the store any time until it is sent
+				cur.hi = w.Last
 			}
 			cur.retained = append(cur.retained, d)
 		}
